@@ -4,7 +4,7 @@
 # "LOST" means no longer reported. usage: sweep_seeded.sh [pattern]   (never run while another check uses /repo)
 cd /verif
 PAT=${1:-C}
-for d in seeded/${PAT}*-${VARS:-[A-I]}; do
+for d in seeded/${PAT}*-${VARS:-[A-J]}; do
   id=$(basename $d)
   read own first <<<$(python3 - "$d" <<'PY'
 import json,sys
